@@ -247,19 +247,19 @@ package js
 //@   ensures[T,C02] @tile: result0 != ErrorToken ==> sameMem(result1, l.r.buf[old(l.r.pos):l.r.pos]) && cap(result1) == len(result1) && len(result1) > 0 && l.r.start == l.r.pos
 //@   ensures[T,C02] @errtok: result0 == ErrorToken && result1 != nil ==> sameMem(result1, l.r.buf[old(l.r.pos):l.r.pos]) && cap(result1) == len(result1) && l.r.start == l.r.pos
 //@   ensures[T,C02] @frame: sameBytesExcept(0, 0)
-//@   ensures[F,C06] @op-canonical: OperatorToken < result0 && result0 <= OptChainToken ==> len(result1) == len(operatorBytes[result0 - OperatorToken]) && forall(k, 0, len(result1), result1[k] == operatorBytes[result0 - OperatorToken][k])
+//@   ensures[F,C06,perpath] @op-canonical: OperatorToken < result0 && result0 <= OptChainToken ==> len(result1) == len(operatorBytes[result0 - OperatorToken]) && forall(k, 0, len(result1), result1[k] == operatorBytes[result0 - OperatorToken][k])
 //@   ensures[F,C06] @punct-canonical: punct1(result0) ==> len(result1) == 1 && result1[0] == punctByte(result0)
 //@   ensures[F,C06] @arrow-canonical: result0 == ArrowToken ==> len(result1) == 2 && result1[0] == '=' && result1[1] == '>'
 //@   ensures[F,C06] @ellipsis-canonical: result0 == EllipsisToken ==> len(result1) == 3 && result1[0] == '.' && result1[1] == '.' && result1[2] == '.'
 //@   ensures[F,C06] @optchain-digit: result0 == OptChainToken ==> !isDig(l.r.buf[l.r.pos])
 //@   ensures[F,C06] @comment-lt: result0 == CommentLineTerminatorToken ==> exists(k, 0, len(result1), isLTat(result1, k))
 //@   ensures[F,C06] @comment-nolt: result0 == CommentToken && len(result1) >= 2 && result1[0] == '/' && result1[1] == '*' ==> forall(k, 0, len(result1), !isLTat(result1, k))
-//@   ensures[F,C06] @keyword-canonical: ReservedToken < result0 && result0 <= WithToken ==> spelled10(result1, reservedWordBytes[result0 - ReservedToken])
-//@   ensures[F,C06] @ctxkeyword-canonical: IdentifierToken < result0 && result0 <= TargetToken ==> spelled10(result1, identifierBytes[result0 - IdentifierToken])
+//@   ensures[F,C06,perpath] @keyword-canonical: ReservedToken < result0 && result0 <= WithToken ==> spelled10(result1, reservedWordBytes[result0 - ReservedToken])
+//@   ensures[F,C06,perpath] @ctxkeyword-canonical: IdentifierToken < result0 && result0 <= TargetToken ==> spelled10(result1, identifierBytes[result0 - IdentifierToken])
 //@   ensures[F,C06] @tokentype-range: result0 <= PrivateIdentifierToken || (NumericToken < result0 && result0 <= IntegerToken) || (PunctuatorToken < result0 && result0 <= EllipsisToken) || (OperatorToken < result0 && result0 <= OptChainToken) || (ReservedToken < result0 && result0 <= WithToken) || (IdentifierToken <= result0 && result0 <= TargetToken)
 //@   ensures[F,C15] @err-in-span: l.err != nil ==> result0 == ErrorToken && old(l.r.pos) <= errOff(l.err) && errOff(l.err) <= l.r.pos
 // a character that cannot start any token ('#' not followed by an identifier, '@', DEL, control characters) is reported at exactly that character
-//@   ensures[F,C15] @err-at-char: result0 == ErrorToken && l.err != nil && jsIllegal(old(l.r.buf[l.r.pos])) ==> errOff(l.err) == old(l.r.pos)
+//@   ensures[F,C15,perpath] @err-at-char: result0 == ErrorToken && l.err != nil && jsIllegal(old(l.r.buf[l.r.pos])) ==> errOff(l.err) == old(l.r.pos)
 //@   ensures[F,C06] @tokentype-closed: result0 != PunctuatorToken && result0 != OperatorToken && result0 != NumericToken && result0 != RegExpToken
 
 //@ func Lexer.Err
